@@ -68,6 +68,20 @@ fn main() {
             let code = match args[2].as_str() {
                 "sched" => sched::child_main(&args[3..]),
                 "hist" => props::c18::child_hist(&args[3..]),
+                "cases" => {
+                    // child cases <builder> <tier> <shard> <nshards> [filter]
+                    let tier = if args[4] == "thorough" { Tier::Thorough } else { Tier::Quick };
+                    let shard: usize = args[5].parse().unwrap();
+                    let shards: usize = args[6].parse().unwrap();
+                    let filter = args.get(7).cloned().filter(|s| !s.is_empty());
+                    match props::child_cases(&args[3], tier) {
+                        Some(cases) => {
+                            engine::run_child_shard(cases, shard, shards, filter, &args[3]);
+                            0
+                        },
+                        None => 2,
+                    }
+                },
                 _ => 2,
             };
             std::process::exit(code);
